@@ -220,6 +220,11 @@ func ParseSliceHeader(nalu []byte, spsMap map[uint32]*SPS, ppsMap map[uint32]*PP
 					sh.NumLongTermSps = uint8(r.ReadExpGolomb())
 				}
 				sh.NumLongTermPics = r.ReadExpGolomb()
+				// the sum shall not exceed sps_max_dec_pic_buffering_minus1, which is at most 15
+				if uint(sh.NumLongTermSps)+sh.NumLongTermPics > 16 || sh.NumLongTermPics > 16 {
+					return sh, fmt.Errorf("too many long-term reference pictures: %d + %d",
+						sh.NumLongTermSps, sh.NumLongTermPics)
+				}
 				for i := uint(0); i < uint(sh.NumLongTermSps)+sh.NumLongTermPics; i++ {
 					var lt LongTermRPS
 					if i < uint(sh.NumLongTermSps) {
